@@ -179,7 +179,8 @@ def run(ctx):
             shutil.rmtree(t, ignore_errors=True)
     ctx.cov['search']['prepare_history'] = {'targets_in_one_process': nhist, 'differing_from_own_process': nhdiff}
     # ---- single-file mode (`prebuild --file F`, the development loop): the policy directory then holds that file and nothing
-    # else, whatever an earlier whole-tree build and planted junk left in the build directory
+    # else, and the unit drop-ins are those of this run, whatever an earlier whole-tree build and planted junk left in the build
+    # directory (share/ is never refreshed in this mode, also on the unchanged tree: left out)
     singles = ['apparmor.d/profiles-a-f/acpid', 'apparmor.d/groups/pacman/pacman']
     if ctx.tier == 'thorough':
         singles += ['apparmor.d/groups/apt/apt', 'apparmor.d/profiles-s-z/sudo', 'apparmor.d/groups/browsers/firefox', 'apparmor.d/profiles-g-l/htop', 'apparmor.d/groups/gnome/gnome-shell']
@@ -192,7 +193,7 @@ def run(ctx):
         lib.copy_tree(tree)
         env = dict(os.environ, DISTRIBUTION=cfg.dist)
         rc0, _ = lib.sh([ctx.path('prebuild')] + cfg.args() + ['--file', fpath], cwd=tree, env=env, timeout=300)
-        clean = dict(listing(os.path.join(tree, '.build'), 'apparmor.d')) if rc0 == 0 else None
+        clean = dict(listing(os.path.join(tree, '.build'), 'apparmor.d') + listing(os.path.join(tree, '.build'), 'systemd')) if rc0 == 0 else None
         shutil.rmtree(os.path.join(tree, '.build'), ignore_errors=True)
         lib.real_build(ctx, lib.Cfg('arch', 4, '4.1', full=True), tree=tree)
         for junk in ('apparmor.d/zz-junk', 'apparmor.d/abstractions/zz-junk', 'apparmor.d/tunables/zz.d/junk'):
@@ -200,7 +201,7 @@ def run(ctx):
             os.makedirs(os.path.dirname(pj), exist_ok=True)
             open(pj, 'w').write('junk\n')
         rc1, _ = lib.sh([ctx.path('prebuild')] + cfg.args() + ['--file', fpath], cwd=tree, env=env, timeout=300)
-        dirty = dict(listing(os.path.join(tree, '.build'), 'apparmor.d')) if rc1 == 0 else None
+        dirty = dict(listing(os.path.join(tree, '.build'), 'apparmor.d') + listing(os.path.join(tree, '.build'), 'systemd')) if rc1 == 0 else None
         shutil.rmtree(tree, ignore_errors=True)
         return fpath, clean, dirty
 
@@ -220,7 +221,7 @@ def run(ctx):
             continue
         base = os.path.basename(fpath)
         extra = sorted(k for k in dirty if k not in clean)
-        if not set(clean) <= {'apparmor.d/' + base} or extra or any(dirty.get(k) != v for k, v in clean.items()):
+        if not {k for k in clean if k.startswith('apparmor.d/')} <= {'apparmor.d/' + base} or extra or any(dirty.get(k) != v for k, v in clean.items()):
             nsbad += 1
             ctx.violation('prebuild --file %s: the policy directory holds %s on an empty build directory and %d more entries (%s) over an earlier build' % (
                 fpath, sorted(clean)[:3], len(extra), extra[:4]), {'file': fpath, 'clean': sorted(clean)[:10], 'leaked_over_earlier_build': extra[:40]})
